@@ -24,6 +24,8 @@ def gen_case(g, kind, Dx, Dy, Dk, R=1, Da=None):
     d = dict(kind=kind, Dx=Dx, Dy=Dy, Dk=Dk, R=R, p=lin.gen_pdfv(g, R, Dx, ctor="Sigma"))
     if kind in ("lrbf", "lsem"):
         d.update(M=g.mat(Dy, Dx + Dk), b=g.vec(Dy), Sig=g.spd(Dy))
+        if g.randint(0, 1) == 0:
+            d["Sig0"] = g.spd(Dy)          # built with another noise covariance, then update_Sigma (lin.with_history)
         if kind == "lrbf":
             d.update(c=g.mat(Dk, Dx), l=[[(g.qpos() if Dx == 1 else Fr(g.randint(2, 6), 2)) for _ in range(Dx)] for _ in range(Dk)])
         else:
@@ -76,23 +78,37 @@ def search_descs(g, failing, tier):
     return [C.J(gen_case(g, d["kind"], 1, 1, 1)) for d in failing[:8] for _ in range(2)]
 
 
-hist = lambda d: dict(kind=d["kind"], Dx=d["Dx"], Dy=d["Dy"], Dk=d["Dk"], Da=d.get("Da"), R=d["R"])
+hist = lambda d: dict(kind=d["kind"], Dx=d["Dx"], Dy=d["Dy"], Dk=d["Dk"], Da=d.get("Da"), R=d["R"], history=("update_Sigma" if d.get("Sig0") is not None else "fresh"))
 nontrivial = lambda d: d["Dx"] * d["Dy"] * d["Dk"] > 1
 scenario = lambda d: d["kind"]
 
 
 def build(d):
+    """(conditional, p(x)); a feature model with "Sig0" was built with that noise covariance and brought to d["Sig"] by
+    update_Sigma -- between the dry run and the observed run when driven by lin.with_history (same Python object)"""
     I = gtlib.impl(); jnp = I["jnp"]
     from gaussian_toolbox import approximate_conditional as ac
     kind = d["kind"]
+    key = ("approx", lin._fp({k: v for k, v in d.items() if k != "p"}))
+    if lin._MODE[0] in ("before", "reuse") and key in lin._MEMO:
+        return lin._MEMO[key], lin.impl_pdfv(d["p"])
+    Sig_build = d.get("Sig0") if d.get("Sig0") is not None else d.get("Sig")
     if kind == "lrbf":
-        c = ac.LRBFGaussianConditional(M=jarr([d["M"]]), b=jarr([d["b"]]), mu=jarr(d["c"]), length_scale=jarr(d["l"]), Sigma=jarr([d["Sig"]]))
+        c = ac.LRBFGaussianConditional(M=jarr([d["M"]]), b=jarr([d["b"]]), mu=jarr(d["c"]), length_scale=jarr(d["l"]), Sigma=jarr([Sig_build]))
     elif kind == "lsem":
-        c = ac.LSEMGaussianConditional(M=jarr([d["M"]]), b=jarr([d["b"]]), W=jarr(d["W"]), Sigma=jarr([d["Sig"]]))
+        c = ac.LSEMGaussianConditional(M=jarr([d["M"]]), b=jarr([d["b"]]), W=jarr(d["W"]), Sigma=jarr([Sig_build]))
     else:
         cls = dict(exp=ac.HeteroscedasticExpConditional, coshm1=ac.HeteroscedasticCoshM1Conditional,
                    heaviside=ac.HeteroscedasticHeavisideConditional, relu=ac.HeteroscedasticReLUConditional)[kind]
         c = cls(M=jarr([d["M"]]), b=jarr([d["b"]]), A=jarr([d["A"]]), W=jarr(d["W"]))
+    if d.get("Sig0") is not None:
+        mut = lambda c=c: c.update_Sigma(jarr([d["Sig"]]))
+        if lin._MODE[0] == "before":
+            lin._PENDING.append(mut)
+        else:
+            mut()
+    if lin._MODE[0] == "before":
+        lin._MEMO[key] = c
     return c, lin.impl_pdfv(d["p"])
 
 
@@ -152,6 +168,24 @@ def gl_nodes_1d(m0, s, breaks, nsub=64, order=48):
     return np.concatenate(xs)[:, None], np.concatenate(ws)
 
 
+def kink_nodes_2d(mu, S, w, w0, nsub=24, order=24):
+    """quadrature for N(mu, S) in two dimensions for integrands with ONE kink line w'x + w0 = 0: whitened coordinates are
+    rotated so that the kink is at a fixed value of the first coordinate (piecewise Gauss-Legendre, split there); the
+    second coordinate gets a composite Gauss-Legendre rule"""
+    import numpy as np
+    L = np.linalg.cholesky(S)
+    v = L.T @ w                                   # h = w'mu + w0 + v't  for x = mu + L t
+    nv = float(np.linalg.norm(v))
+    e1 = v / nv
+    Q = np.array([e1, [-e1[1], e1[0]]])           # rows: along the kink normal, along the kink
+    t_star = -(float(w @ mu) + w0) / nv           # h = 0  <=>  first rotated coordinate = t_star
+    T1, W1 = gl_nodes_1d(0.0, 1.0, [t_star], nsub=nsub, order=order)
+    T2, W2 = gl_nodes_1d(0.0, 1.0, [], nsub=nsub, order=order)
+    A, B = np.meshgrid(T1[:, 0], T2[:, 0], indexing="ij")
+    T = np.stack([A.ravel(), B.ravel()], axis=1)  # rotated whitened coordinates
+    return mu[None] + (T @ Q) @ L.T, np.outer(W1, W2).ravel()
+
+
 def quad_moments(d, c, r):
     """(E[y], Cov[y], Cov[y,x]) of y ~ p(y|x) p(x) by quadrature; None if no converged rule applies"""
     import numpy as np
@@ -167,6 +201,9 @@ def quad_moments(d, c, r):
             Lc = np.linalg.cholesky(S)
             extra = np.max(np.abs(np.array([Lc.T @ gtlib.fl(row[1:]) for row in d["W"]])), axis=0)
         X, w = gh_nodes(mu, S, 110, extra=extra)
+    elif Dx == 2 and d["Dk"] == 1 and any(v != 0 for v in d["W"][0][1:]):
+        # step / rectified-linear link with one noise unit: a single kink line
+        X, w = kink_nodes_2d(mu, S, gtlib.fl(d["W"][0][1:]), float(d["W"][0][0]))
     else:
         return None
     m, Sg = cond_moments_at(c, X)
